@@ -347,7 +347,11 @@ def equal(I, a, b, st, node=None):
             for i in range(la):
                 r = z3.And(r, to_z3int(seq_at(a, i)) == seq_at(b, i))
             return r
-        raise Unsupported("equality of two symbolic-length sequences", node)
+        if isinstance(a, SymSeq) and isinstance(b, SymSeq) and a.arr.eq(b.arr) and z3.simplify(to_z3int(a.off) == to_z3int(b.off)).eq(z3.BoolVal(True)):
+            return to_z3int(la) == to_z3int(lb)
+        i = z3.Int("i!eq")
+        return z3.And(to_z3int(la) == to_z3int(lb),
+                      z3.ForAll([i], z3.Implies(z3.And(i >= 0, i < to_z3int(la)), to_z3int(seq_at(a, i)) == to_z3int(seq_at(b, i)))))
     if isinstance(a, tuple) and isinstance(b, tuple):
         if len(a) != len(b):
             return False
@@ -523,6 +527,11 @@ def do_getitem(I, c, i, st, node=None):
         return out
     if isinstance(c, Opaque):
         return V(Opaque("item"), st)
+    if isinstance(c, ClassVal) and I.lifter is not None and I.lifter.is_enum(c.qualname) and isinstance(i, str):
+        try:
+            return V(I.lifter.enum_member(c.qualname, i), st)
+        except KeyError:
+            return E(I, "KeyError", st, i)
     raise Unsupported(f"subscript of {c!r}", node)
 
 
@@ -640,7 +649,8 @@ def do_slice(I, c, lo, hi, step, st, node=None):
 
 
 # ---------------------------------------------------------------------------------------------- struct
-STRUCT_FIELDS = {"B": (1, False), "b": (1, True), "H": (2, False), "h": (2, True), "I": (4, False), "L": (4, False)}
+STRUCT_FIELDS = {"B": (1, False), "b": (1, True), "H": (2, False), "h": (2, True), "I": (4, False), "L": (4, False), "i": (4, True), "l": (4, True),
+                 "q": (8, True), "Q": (8, False)}
 
 
 def parse_fmt(fmt):
@@ -1106,6 +1116,8 @@ def call_method(I, typ, meth, recv, args, kwargs, st, node=None):
         return V(recv.index(args[0]), st)
     if typ == "bytes" and meth == "decode" and isinstance(recv, bytes):
         return V(recv.decode(*args), st)
+    if typ == "file":
+        return file_method(I, meth, recv, args, kwargs, st, node)
     if typ == "opaque":
         if isinstance(recv, Opaque) and recv.what == "logger":
             st.events.append(("log", meth, args[0] if args else None))
@@ -1127,3 +1139,65 @@ def context_exit(I, v, st):
         o = I.hget(st, v)
         if isinstance(o, HInst) and o.cls == "<file>":
             I.hmut(st, v).fields["closed"] = True
+
+
+# ---------------------------------------------------------------------------------------------- file objects
+def new_file(I, st, mode, data=None, path=None):
+    """File model.  Readable: `data` (bytes / SymBytes / SymSeq / str) and a position.  Writable: `written` is the
+    ghost log of the pieces written, in order (('seek', n) tuples for seeks)."""
+    return I.alloc(st, HInst("<file>", {"mode": mode, "data": data if data is not None else b"", "pos": 0,
+                                        "written": I.alloc(st, HList([])), "closed": False, "path": path}))
+
+
+def file_method(I, meth, recv, args, kwargs, st, node=None):
+    o = I.hget(st, recv)
+    f = o.fields
+    if meth in ("read", "peek"):
+        data = f["data"]
+        if isinstance(data, str):
+            if meth == "read" and not args:
+                I.hmut(st, recv).fields["pos"] = len(data)
+                return V(data[f["pos"]:], st)
+            raise Unsupported("partial read of a text file", node)
+        total = seq_len(data)
+        pos = f["pos"]
+        remaining = z3.simplify(to_z3int(total) - to_z3int(pos)) if (is_sym(total) or is_sym(pos)) else total - pos
+        if meth == "read":
+            if not args or args[0] is None or (isinstance(args[0], int) and args[0] < 0):
+                ln = remaining
+            else:
+                n = args[0]
+                if is_sym(n) or is_sym(remaining):
+                    ln = z3.simplify(z3.If(to_z3int(n) <= to_z3int(remaining), to_z3int(n), to_z3int(remaining)))
+                else:
+                    ln = min(n, remaining)
+            out = []
+            for k, piece, s in do_slice(I, data, pos, to_z3int(pos) + to_z3int(ln) if is_sym(ln) or is_sym(pos) else pos + ln, None, st, node):
+                I.hmut(s, recv).fields["pos"] = z3.simplify(to_z3int(pos) + to_z3int(ln)) if (is_sym(pos) or is_sym(ln)) else pos + ln
+                out.append((k, piece, s))
+            return out
+        # peek: documented contract only -- a non-empty prefix of what remains, of unspecified length (possibly shorter
+        # or longer than requested), empty only at end of file
+        L = I.fresh_int("peeklen")
+        rem = to_z3int(remaining)
+        st.pc.append(z3.And(L >= 0, L <= rem, z3.Implies(rem > 0, L >= 1)))
+        st.assumed.append("BufferedReader.peek: documented contract (non-empty prefix of unspecified length)")
+        return do_slice(I, data, pos, to_z3int(pos) + L, None, st, node)
+    if meth == "write":
+        b = args[0]
+        w = I.hmut(st, f["written"])
+        w.items.append(b)
+        r = builtin_len(I, b, st, node) if not isinstance(b, str) else V(len(b), st)
+        return r
+    if meth == "seek":
+        I.hmut(st, f["written"]).items.append(("seek", args[0]))
+        I.hmut(st, recv).fields["pos"] = args[0]
+        return V(args[0], st)
+    if meth == "close":
+        I.hmut(st, recv).fields["closed"] = True
+        return V(None, st)
+    if meth == "readlines":
+        data = f["data"]
+        if isinstance(data, str):
+            return V(I.alloc(st, HList(data.splitlines(keepends=True))), st)
+    raise Unsupported(f"file method {meth}", node)
